@@ -24,7 +24,10 @@ OPS = ["accuflux(up)", "accuflux(down)", "upstream_area(unit) projected", "upstr
 RULE = ("random loop-free networks: D8 networks from random DEMs, arbitrary forests on raster shapes, star "
         "confluences with up to 8 branches, vector networks (<= 40 nodes); both cell orders (walk/sort); fields "
         "of dtype u8/i16/i32/i64/f32/f64 with negative values, nodata cells and nodata values that partial sums "
-        "hit; all four area units, projected (unequal/positive resolutions) and geographic grids. non-trivial = "
+        "hit; float fields with valid values a dyadic step 2**-4..2**-40 away from the nodata value (nodata -9999, "
+        "0, -1, 1, 1e20-like; both signs, both directions); sparse point fields (all zero / all nodata except 1-3 "
+        "cells, points also on cells outside the network and on the last cell) on rasters and vector networks of "
+        "50..120 cells; all four area units, projected (unequal/positive resolutions) and geographic grids. non-trivial = "
         ">= 2 valid cells, >= 1 confluence, path length >= 3; distinct = SHA-1 of (op, network, order, field, options)")
 
 NOEND = -999999999999
@@ -156,6 +159,175 @@ def gen_field(rng, ds):
     return arr, nd, scale, {"dtype": dt, "sign": sign, "has_nodata": has_nd, "ints": vals, "large": bool(base)}
 
 
+# float32-representable nodata values of the "1e20" kind (what GIS float rasters carry): few and many mantissa bits
+BIG_NODATA = [2 ** 66, 3 * 2 ** 65, 5 * 2 ** 64, int(np.float32(1e20)), -int(np.float32(1e20)), int(np.float32(3.4e38))]
+
+
+def _ilog2(x):
+    """floor(log2(x)) of a positive integer"""
+    return x.bit_length() - 1
+
+
+def gen_near_field(rng, ds):
+    """float field with VALID values very close to, but different from, the nodata value: nodata +- j*u with
+    u = 2**-k (k = 4..40; for the 1e20-like nodata values u = 2**-k * 2**floor(log2 |nodata|)), next to cells that
+    hold nodata itself, zeros, multiples of u (tiny magnitudes when nodata = 0) and ordinary k/8 values.
+    Exactness: every value is an integer multiple of the field's grid step 1/scale and the sum of all magnitudes
+    times scale stays below 2**p (p = 24 / 53), so every value and every partial sum the implementation can form is
+    exactly representable in the field's dtype; k is lowered (and float32 widened to float64) until that holds.
+    Returns like gen_field (scale may be a Fraction < 1 for the large nodata values)."""
+    n = len(ds)
+    dt = rng.choice(["float32", "float64", "float64"])
+    kind = rng.choice(["-9999", "-9999", "0", "0", "-1", "1", "big"])
+    nodata = rng.choice(BIG_NODATA) if kind == "big" else int(kind)
+    e0 = _ilog2(abs(nodata)) if kind == "big" else 0       # offsets are relative to the binade of a large nodata
+    k = rng.randint(4, 40)
+    p_near = rng.choice([0.05, 0.15, 0.4])
+    p_nd = rng.choice([0.0, 0.0, 0.1, 0.3])
+    others = rng.choice(["tiny", "plain", "zero", "mixed"])
+    sign = rng.choice(["nonneg", "mixed"])
+    cells = []
+    for i in range(n):
+        u = rng.random()
+        if u < p_near:
+            cells.append(("near", rng.choice([1, -1, 1, -1, 2, -3])))
+        elif u < p_near + p_nd:
+            cells.append(("nd", 0))
+        else:
+            o = others if others != "mixed" else rng.choice(["tiny", "plain", "zero"])
+            lo = 0 if sign == "nonneg" else -6
+            if o == "tiny":
+                cells.append(("tiny", rng.randint(lo, 6)))
+            elif o == "plain":
+                cells.append(("plain", rng.randint(lo * 8, 48)))
+            else:
+                cells.append(("zero", 0))
+    if not any(c[0] == "near" and ds[i] != n for i, c in enumerate(cells)):
+        v = [i for i in range(n) if ds[i] != n]
+        if v:
+            cells[rng.choice(v)] = ("near", rng.choice([1, -1]))
+
+    def build(k):
+        u = Fraction(2) ** (e0 - k)
+        w = Fraction(2) ** (e0 - 3)                       # "ordinary" values: multiples of 1/8 (of the binade)
+        vals = []
+        for i, (what, j) in enumerate(cells):
+            x = {"near": nodata + j * u, "nd": Fraction(nodata), "tiny": j * u, "plain": j * w, "zero": Fraction(0)}[what]
+            vals.append(x)                                 # (a tiny 0 with nodata 0 simply is one more nodata cell)
+        step = min(u, w, Fraction(nodata & -nodata) if nodata else u)   # nodata itself lies on the grid too
+        return vals, 1 / step
+
+    while True:
+        vals, scale = build(k)
+        total = sum(abs(x) for x in vals)
+        if total * scale < 2 ** (24 if dt == "float32" else 53) and total < 2 ** (127 if dt == "float32" else 1023):
+            break
+        if k > 4:
+            k -= 1
+        elif dt == "float32":
+            dt, k = "float64", 40
+        else:                                               # cannot happen for <= 2**20 cells; keep the loop total
+            cells = [("zero", 0) if c[0] == "near" and rng.random() < 0.5 else c for c in cells]
+    ints = [int(x * scale) for x in vals]
+    assert all(Fraction(i) == x * scale for i, x in zip(ints, vals))
+    arr = np.array([float(x) for x in vals], dtype=np.float64).astype(dt)
+    assert [Fraction(float(x)) for x in arr] == vals, "harness: near-nodata field not exactly representable"
+    if scale.denominator == 1:
+        scale = int(scale)
+    nd = float(nodata) if kind == "big" or rng.random() < 0.5 else nodata
+    valid = [i for i in range(n) if ds[i] != n]
+    tol = Fraction(1, 10 ** 8) + Fraction(1, 10 ** 5) * abs(nodata)
+    meta = {"dtype": dt, "sign": "mixed" if any(vals[i] < 0 and vals[i] != nodata for i in valid) else "nonneg",
+            "has_nodata": any(vals[i] == nodata for i in valid), "ints": ints, "large": False,
+            "near": {"nodata": kind, "k": k,
+                     "close": sum(1 for i in valid if vals[i] != nodata and abs(vals[i] - nodata) <= tol)}}
+    return arr, nd, scale, meta
+
+
+def knock_out(ds, cells):
+    """the cells leave the network (become nodata cells of the flow raster); cells draining into them become pits"""
+    n = len(ds)
+    ds = list(ds)
+    for c in cells:
+        ds[c] = n
+    for i in range(n):
+        if ds[i] != n and ds[ds[i]] == n:
+            ds[i] = i
+    return ds
+
+
+def gen_sparse_net(rng):
+    """network of 50..120 cells (raster: D8 from a DEM or arbitrary forest; or vector) with cells outside the
+    network; the last cell is inside or outside the network with comparable frequency"""
+    if rng.random() < 0.25:
+        n = rng.randint(50, 120)
+        shape, fam = None, "sparse-vector"
+        ds = gen_forest(rng, n, p_nodata=rng.choice([0.1, 0.3]), fanin_bias=rng.choice([0.0, 0.5]))
+    else:
+        while True:
+            shape = (rng.randint(5, 14), rng.randint(5, 14))
+            if 50 <= shape[0] * shape[1] <= 120:
+                break
+        n = shape[0] * shape[1]
+        if rng.random() < 0.7:
+            from common import gen_dem_net
+            ds, fam = gen_dem_net(rng, shape, p_nodata=rng.choice([0.1, 0.3]), p_extra_pit=0.02), "sparse-dem"
+        else:
+            ds, fam = gen_forest(rng, n, p_nodata=rng.choice([0.1, 0.3]), fanin_bias=rng.choice([0.0, 0.5])), "sparse-forest"
+    out = [i for i in range(n) if ds[i] == n]
+    ko = []
+    if len(out) < 3:
+        ko += rng.sample(range(n), rng.randint(2, 6))
+    u = rng.random()
+    if u < 0.35 and ds[n - 1] != n:
+        ko.append(n - 1)
+    if ko:
+        ds2 = knock_out(ds, ko)
+        if sum(1 for d in ds2 if d != n) >= 4:
+            ds = ds2
+    return ds, shape, fam
+
+
+def gen_sparse_field(rng, ds):
+    """point data: the whole field is zero (or nodata) except 1-3 cells; the points lie inside the network, on cells
+    outside the network, on the last cell. Integer or dyadic (k/8) values. Returns like gen_field."""
+    n = len(ds)
+    dt = rng.choice(["uint8", "int16", "int32", "int64", "float32", "float64"])
+    isf = dt.startswith("float")
+    scale = 8 if isf else 1
+    nodata = rng.choice([0, 255, 3] if dt == "uint8" else [-9999, -9999, -1, 0, 3])
+    inside = [i for i in range(n) if ds[i] != n]
+    outside = [i for i in range(n) if ds[i] == n]
+    bg_in = rng.choice([0, 0, nodata])
+    bg_out = rng.choice([0, 0, nodata])
+    vals = [(bg_out if ds[i] == n else bg_in) * scale for i in range(n)]
+    npts = rng.choice([1, 1, 2, 2, 3])
+    where = []
+    for _ in range(npts):
+        u = rng.random()
+        if u < 0.4 and outside:
+            i, w = rng.choice(outside), "outside"
+        elif u < 0.55:
+            i, w = n - 1, "last"
+        else:
+            i, w = rng.choice(inside), "inside"
+        while True:
+            v = rng.randint(1, 20 * scale) * (1 if dt == "uint8" or rng.random() < 0.75 else -1)
+            if v != nodata * scale:
+                break
+        vals[i] = v
+        where.append(w)
+    arr = np.array([Fraction(v, scale) for v in vals], dtype=np.float64).astype(dt) if isf else np.array(vals, dtype=dt)
+    nd = float(nodata) if isf and rng.random() < 0.5 else nodata
+    nsrc = sum(1 for v in vals if v != 0 and v != nodata * scale)
+    meta = {"dtype": dt, "sign": "mixed" if any(vals[i] < 0 and vals[i] != nodata * scale for i in inside) else "nonneg",
+            "has_nodata": any(vals[i] == nodata * scale for i in inside), "ints": vals, "large": False,
+            "sparse": {"where": sorted(set(where)), "last_in_network": ds[n - 1] != n,
+                       "ratio": "<=1/50" if nsrc * 50 <= n else ">1/50",
+                       "src_outside": any(vals[i] != 0 and vals[i] != nodata * scale for i in outside)}}
+    return arr, nd, scale, meta
+
+
 def drv_err(a):
     return [{"kind": "model", "what": "driver error " + a["__err__"]}] if "__err__" in a else None
 
@@ -206,10 +378,15 @@ def py_consequences(ds, vals, nodata_i, out, direction):
     return fs
 
 
-def case_accuflux(ctx, flw, ds, shape, seq, order, nontriv, fam):
+def case_accuflux(ctx, flw, ds, shape, seq, order, nontriv, fam, field=None):
     rng = ctx.rng
     n = len(ds)
-    arr, nd, scale, meta = gen_field(rng, ds)
+    if field is not None:
+        arr, nd, scale, meta = field
+    elif rng.random() < 0.25:
+        arr, nd, scale, meta = gen_near_field(rng, ds)
+    else:
+        arr, nd, scale, meta = gen_field(rng, ds)
     direction = rng.choice(["up", "up", "down"])
     data = arr.reshape(shape) if shape is not None else arr
     out = flw.accuflux(data, nodata=nd, direction=direction)
@@ -228,11 +405,23 @@ def case_accuflux(ctx, flw, ds, shape, seq, order, nontriv, fam):
     ctx.count("field-nodata-cells" if meta["has_nodata"] else "field-no-nodata")
     if meta["sign"] == "mixed":
         ctx.count("field-negative")
+    if "near" in meta:
+        nr = meta["near"]
+        ctx.count("field-near-nodata:nodata=%s:%s" % (nr["nodata"], direction))
+        ctx.count("field-near-nodata:step=2**-%d..%d" % (nr["k"] // 10 * 10, nr["k"] // 10 * 10 + 9))
+        ctx.count("field-near-nodata:valid-cell-within-1e-8+1e-5*|nodata|" if nr["close"] else "field-near-nodata:none-that-close")
+    if "sparse" in meta:
+        sp = meta["sparse"]
+        ctx.count("field-sparse:" + direction + ":sources" + sp["ratio"])
+        ctx.count("field-sparse:points-" + "+".join(sp["where"]))
+        if sp["src_outside"]:
+            ctx.count("field-sparse:point-outside-network:last-cell-" + ("inside" if sp["last_in_network"] else "outside"))
     # partial sums that equal the nodata value (the F04 situation)
     if any(x == nodata_i and vals[i] != nodata_i for i, x in enumerate(impl) if ds[i] != n):
         ctx.count("partial-sum-equals-nodata")
     desc = {"op": "accuflux", "ds": ds, "shape": list(shape) if shape else None, "order": order, "data_scaled": vals,
-            "scale": scale, "dtype": meta["dtype"], "nodata": nd, "direction": direction}
+            "scale": scale if isinstance(scale, int) else str(scale), "dtype": meta["dtype"], "nodata": nd,
+            "direction": direction}
     pyfs = py_consequences(ds, vals, nodata_i, impl, direction)
 
     def judge(ans):
@@ -692,6 +881,28 @@ def one_network(ctx, ds, shape, fam, full=True):
         case_errors(ctx, flw, ds, shape)
 
 
+def sparse_network(ctx):
+    """point data on a network of 50..120 cells (see gen_sparse_net / gen_sparse_field)"""
+    rng = ctx.rng
+    ds, shape, fam = gen_sparse_net(rng)
+    n = len(ds)
+    feat = net_features(ds)
+    nontriv = feat["valid"] >= 2 and feat["confluences"] >= 1 and max_path_len(ds) >= 3
+    ctx.count("family:" + fam)
+    ctx.count("sparse-net:last-cell-" + ("inside" if ds[n - 1] != n else "outside"))
+    idt = rng.choice([np.int32, np.int64])
+    try:
+        flw = mk_raster(ds, shape, dtype=idt) if shape is not None else mk_vector(ds, dtype=idt)
+    except ValueError:
+        ctx.count("ctor-rejected")
+        return
+    order = rng.choice(["walk", "sort"])
+    flw.order_cells(order)
+    seq = canon_idx(flw.idxs_seq, n)
+    for _ in range(2):
+        case_accuflux(ctx, flw, ds, shape, seq, order, nontriv, fam, field=gen_sparse_field(rng, ds))
+
+
 def all_forests(n):
     """every loop-free functional graph on n nodes with values in 0..n (n = missing) whose valid nodes drain to
     valid nodes and that has at least one pit"""
@@ -716,13 +927,16 @@ def replay_case(ctx, d):
     if desc.get("op") != "accuflux":
         ctx.notes.append("replay: only accuflux cases are re-run individually; running the generators instead")
         return False
-    ds, shape, scale = desc["ds"], desc["shape"], desc["scale"]
+    ds, shape, scale = desc["ds"], desc["shape"], Fraction(desc["scale"])
     n = len(ds)
     flw = mk_raster(ds, tuple(shape)) if shape else mk_vector(ds)
     flw.order_cells(desc["order"])
     seq = canon_idx(flw.idxs_seq, n)
     vals = desc["data_scaled"]
-    arr = np.array([v / scale for v in vals]).astype(desc["dtype"])
+    if desc["dtype"].startswith("float"):
+        arr = np.array([float(Fraction(v) / scale) for v in vals]).astype(desc["dtype"])
+    else:
+        arr = np.array([int(Fraction(v) / scale) for v in vals], dtype=desc["dtype"])
     data = arr.reshape(shape) if shape else arr
     out = flw.accuflux(data, nodata=desc["nodata"], direction=desc["direction"])
     impl = scaled(out, scale)
@@ -762,5 +976,7 @@ def run(ctx):
     for k in range(ncase):
         ds, shape, fam = gen_net(rng, max_cells)
         one_network(ctx, ds, shape, fam)
+        if k % 5 == 0:
+            sparse_network(ctx)
         if len(ctx.cases) > 300:
             ctx.flush()
